@@ -7,6 +7,7 @@ import (
 	"os/exec"
 	"path/filepath"
 	"regexp"
+	"sort"
 	"strconv"
 	"strings"
 )
@@ -16,6 +17,153 @@ func factsAll() {
 	factsApi()
 	factsCodec()
 	factsHD()
+	factsWalletTx()
+}
+
+// factsWalletTx: for every exported method of KeystoreManagerForPoC that runs db.Update — how many Update calls,
+// does a closure swallow an error (compares a call result with nil directly and returns another variable),
+// does the closure (or an AddrManager/KeystoreManager method it calls) assign a receiver field.
+func factsWalletTx() {
+	const d = "poc/wallet/keystore"
+	p := loadPkg(d)
+	methods := map[string]*ast.FuncDecl{} // "Recv.name"
+	var names []string
+	for _, f := range p.files {
+		for _, decl := range f.Decls {
+			fd, ok := decl.(*ast.FuncDecl)
+			if !ok || fd.Recv == nil || len(fd.Recv.List) != 1 {
+				continue
+			}
+			t := fd.Recv.List[0].Type
+			if st, ok := t.(*ast.StarExpr); ok {
+				t = st.X
+			}
+			id, ok := t.(*ast.Ident)
+			if !ok {
+				continue
+			}
+			methods[id.Name+"."+fd.Name.Name] = fd
+			if id.Name == "KeystoreManagerForPoC" && fd.Name.IsExported() {
+				names = append(names, fd.Name.Name)
+			}
+		}
+	}
+	sort.Strings(names)
+	recvName := func(fd *ast.FuncDecl) string {
+		if len(fd.Recv.List[0].Names) == 1 {
+			return fd.Recv.List[0].Names[0].Name
+		}
+		return ""
+	}
+	assignsRecvField := func(fd *ast.FuncDecl) bool {
+		r := recvName(fd)
+		found := false
+		ast.Inspect(fd.Body, func(n ast.Node) bool {
+			as, ok := n.(*ast.AssignStmt)
+			if !ok {
+				return true
+			}
+			for _, l := range as.Lhs {
+				if se, ok := l.(*ast.SelectorExpr); ok {
+					if id, ok := se.X.(*ast.Ident); ok && id.Name == r && r != "" {
+						found = true
+					}
+				}
+			}
+			return true
+		})
+		return found
+	}
+	var items []string
+	for _, name := range names {
+		fd := methods["KeystoreManagerForPoC."+name]
+		updates, swallows, assigns := 0, false, false
+		locksOnEntry := false
+		if len(fd.Body.List) >= 2 {
+			if es, ok := fd.Body.List[0].(*ast.ExprStmt); ok {
+				if ce, ok := es.X.(*ast.CallExpr); ok {
+					if se, ok := ce.Fun.(*ast.SelectorExpr); ok && se.Sel.Name == "Lock" {
+						if ds, ok := fd.Body.List[1].(*ast.DeferStmt); ok {
+							if se2, ok := ds.Call.Fun.(*ast.SelectorExpr); ok && se2.Sel.Name == "Unlock" {
+								locksOnEntry = true
+							}
+						}
+					}
+				}
+			}
+		}
+		touchesMaps := false
+		ast.Inspect(fd.Body, func(n ast.Node) bool {
+			if se, ok := n.(*ast.SelectorExpr); ok && (se.Sel.Name == "managedKeystores" || se.Sel.Name == "unlocked" || se.Sel.Name == "pubPassphrase") {
+				touchesMaps = true
+			}
+			return true
+		})
+		ast.Inspect(fd.Body, func(n ast.Node) bool {
+			ce, ok := n.(*ast.CallExpr)
+			if !ok {
+				return true
+			}
+			se, ok := ce.Fun.(*ast.SelectorExpr)
+			if !ok || se.Sel.Name != "Update" {
+				return true
+			}
+			if x, ok := se.X.(*ast.Ident); !ok || x.Name != "db" {
+				return true
+			}
+			updates++
+			if len(ce.Args) != 2 {
+				return true
+			}
+			fl, ok := ce.Args[1].(*ast.FuncLit)
+			if !ok {
+				return true
+			}
+			ast.Inspect(fl.Body, func(m ast.Node) bool {
+				switch x := m.(type) {
+				case *ast.IfStmt:
+					if x.Init == nil {
+						if be, ok := x.Cond.(*ast.BinaryExpr); ok && be.Op.String() == "!=" {
+							if _, isCall := be.X.(*ast.CallExpr); isCall {
+								// the error value of the call is not bound: whatever is returned is something else
+								for _, st := range x.Body.List {
+									if rs, ok := st.(*ast.ReturnStmt); ok && len(rs.Results) == 1 {
+										if id, ok := rs.Results[0].(*ast.Ident); ok && id.Name != "nil" {
+											swallows = true
+										}
+									}
+								}
+							}
+						}
+					}
+				case *ast.AssignStmt:
+					for _, l := range x.Lhs {
+						if se, ok := l.(*ast.SelectorExpr); ok {
+							if id, ok := se.X.(*ast.Ident); ok && (id.Name == "kmc" || id.Name == "addrManager") {
+								assigns = true
+							}
+						}
+					}
+				case *ast.CallExpr:
+					if se, ok := x.Fun.(*ast.SelectorExpr); ok {
+						if id, ok := se.X.(*ast.Ident); ok {
+							for _, recv := range []string{"AddrManager", "KeystoreManagerForPoC"} {
+								if callee, ok := methods[recv+"."+se.Sel.Name]; ok && (id.Name == "addrManager" || id.Name == "kmc") {
+									if assignsRecvField(callee) {
+										assigns = true
+									}
+								}
+							}
+						}
+					}
+				}
+				return true
+			})
+			return true
+		})
+		items = append(items, fmt.Sprintf("(%s, %d, %v, %v, %v, %v)", leanStr(name), updates, swallows, assigns, locksOnEntry, touchesMaps))
+	}
+	emit("/-- exported methods of `KeystoreManagerForPoC`: (name, number of db.Update calls, a closure swallows an error,\n    a receiver field is assigned inside a closure, locks the manager mutex on entry, touches shared manager state) -/\ndef walletMethods : List (String × Nat × Bool × Bool × Bool × Bool) := [\n  %s]", strings.Join(items, ",\n  "))
 }
 
 func factsHD() {
